@@ -631,12 +631,17 @@ pub fn random_op(r: &mut Rng, u: &Universe, w: &World, last: &Option<Op>, live: 
             let mut answers: Vec<Option<u64>> = Vec::new();
             let mut pool = w.free.clone();
             let fail_at = if r.below(10) < w.fail10 { Some(r.below(3) as usize) } else { None };
+            // half of the time huge-page-aligned frames are handed out first (a table living in a
+            // frame that would also be a valid huge data frame is the interesting case for
+            // operations of the wrong size on that slot)
+            let prefer_aligned = r.chance(1, 2);
             for k in 0..3 {
                 if Some(k) == fail_at || pool.is_empty() {
                     answers.push(None);
                     break;
                 }
-                let i = r.below(pool.len() as u64) as usize;
+                let aligned: Vec<usize> = (0..pool.len()).filter(|&i| pool[i] & 0x1f_ffff == 0).collect();
+                let i = if prefer_aligned && !aligned.is_empty() { *r.pick(&aligned) } else { r.below(pool.len() as u64) as usize };
                 answers.push(Some(pool.swap_remove(i)));
             }
             // identity mapping targets the page at the frame's address: not inside the recursive slot
@@ -829,7 +834,8 @@ fn reset_event(out: &mut Out, st: &Setup) {
             .w("root", st.root)
             .n("rix", st.rix)
             .w("offset", st.offset)
-            .words("pool", &st.pool),
+            .words("pool", &st.pool)
+            .raw("mem", "[]"),
     );
 }
 
@@ -1056,5 +1062,127 @@ pub fn run_rpt_new(out: &mut Out, seed: u64, n: u64) {
             done += 1;
         }
         unsafe { libc::munmap(va as *mut libc::c_void, 4096) };
+    }
+}
+
+
+// ------------------------------------------------------------------------------------------
+// specification -> implementation: replay of TLC-generated stimuli (pre-state + one call)
+
+fn jw(v: &serde_json::Value) -> u64 {
+    let a = v.as_array().expect("word");
+    (0..4).map(|i| a[i].as_u64().unwrap() << (16 * i)).sum()
+}
+
+pub fn run_stimuli(out: &mut Out, path: &str, kind: &str, every: u64, seed: u64) {
+    use std::io::BufRead;
+    let f = std::fs::File::open(path).unwrap_or_else(|e| {
+        eprintln!("xv: cannot open {}: {}", path, e);
+        std::process::exit(2)
+    });
+    let mut r = Rng::new(seed);
+    let offset = if kind == "offset" { 0x2345_6000_0000u64 } else { 0 };
+    for (ln, line) in std::io::BufReader::new(f).lines().enumerate() {
+        let line = line.unwrap();
+        if line.trim().is_empty() || (ln as u64 + seed) % every != 0 {
+            continue;
+        }
+        let v: serde_json::Value = serde_json::from_str(&line).expect("stimulus json");
+        let rix = v["rix"].as_i64().unwrap();
+        if (kind == "recursive") != (rix >= 0) {
+            continue;
+        }
+        let root = jw(&v["root"]);
+        let free: Vec<u64> = v["free"].as_array().unwrap().iter().map(jw).collect();
+        let mem: Vec<(u64, usize, u64)> = v["mem"].as_array().unwrap().iter().map(|t| (jw(&t[0]), t[1].as_u64().unwrap() as usize, jw(&t[2]))).collect();
+        let mut pool = free.clone();
+        let tables: Vec<u64> = v["tables"].as_array().unwrap().iter().map(jw).collect();
+        for fr in mem.iter().map(|t| t.0).chain(tables.iter().copied()) {
+            if fr != root && !pool.contains(&fr) {
+                pool.push(fr);
+            }
+        }
+        let st = Setup { kind: kind.to_string(), root, rix, pool: pool.clone(), offset };
+        if !install(&st) {
+            eprintln!("xv: cannot lay out stimulus {}", ln);
+            std::process::exit(2);
+        }
+        // inject the pre-state: table frames hold exactly the given entries
+        with(|sh| {
+            for fr in tables.iter().chain(mem.iter().map(|t| &t.0)) {
+                if *fr != root {
+                    sh.pm.fill(*fr, |_| 0);
+                }
+            }
+            for (fr, i, raw) in &mem {
+                sh.pm.write(*fr, *i, *raw);
+            }
+        });
+        let mut mj = String::from("[");
+        for (k, (fr, i, raw)) in mem.iter().enumerate() {
+            if k > 0 {
+                mj.push(',');
+            }
+            mj.push_str(&format!("[{},{},{}]", limbs(*fr), i, limbs(*raw)));
+        }
+        mj.push(']');
+        out.emit(Ev::new("reset").str("kind", kind).w("root", root).n("rix", rix).w("offset", offset).words("pool", &free).raw("mem", &mj));
+        let s = v["s"].as_u64().unwrap() as u8;
+        let page = jw(&v["page"]);
+        let op = match v["op"].as_str().unwrap() {
+            "map" => Op::Map {
+                s,
+                page,
+                frame: jw(&v["frame"]),
+                f: jw(&v["F"]),
+                pf: jw(&v["PF"]),
+                how: 0,
+                answers: v["allocs"].as_array().unwrap().iter().map(|a| if a.as_array().map(|x| x.is_empty()).unwrap_or(true) { None } else { Some(jw(a)) }).collect(),
+            },
+            "unmap" => Op::Unmap { s, page },
+            "update" => Op::Update { s, page, f: jw(&v["F"]) },
+            "setflags" => Op::SetFlags { s, page, k: v["K"].as_u64().unwrap() as u8, f: jw(&v["F"]) },
+            "translate_page" => Op::TranslatePage { s, page },
+            "clean" => {
+                let (a, b) = (page, jw(&v["b"]));
+                Op::Clean { full: a == 0 && b == 0xffff_ffff_ffff_f000, a, b }
+            }
+            _ => continue,
+        };
+        let mut w = World { free: free.clone(), kind: kind.to_string(), mix: [0; 6], fail10: 0, rix };
+        let rootp = with(|sh| sh.pm.frame_ptr(root).unwrap()) as *mut PageTable;
+        let size = 1u64 << (12 + 9 * s as u64);
+        let probes = [page, page.wrapping_add(size / 2 + 0x11), canon(page.wrapping_add(size))];
+        macro_rules! go {
+            ($m:expr) => {{
+                exec($m, &mut w, &op, out);
+                let pv = *r.pick(&probes);
+                exec($m, &mut w, &Op::Translate { va: pv }, out);
+                exec($m, &mut w, &Op::Translate { va: probes[0] }, out);
+            }};
+        }
+        match kind {
+            "mapped" => {
+                let mut m = unsafe { MappedPageTable::new(&mut *rootp, FrameMap) };
+                go!(&mut m);
+            }
+            "offset" => {
+                let wp = (offset + root) as *mut PageTable;
+                let mut m = unsafe { OffsetPageTable::new(&mut *wp, VirtAddr::new(offset)) };
+                go!(&mut m);
+            }
+            _ => {
+                use x86_64::structures::paging::RecursivePageTable;
+                let va = rec_va(rix);
+                match catch(|| RecursivePageTable::new(unsafe { &mut *(va as *mut PageTable) })) {
+                    Some(Ok(mut m)) => {
+                        let _ = crate::trap::take_mmu();
+                        let _ = crate::cpu::drain();
+                        go!(&mut m);
+                    }
+                    _ => out.emit(Ev::new("rpt_new").w("addr", va).w("cr3", root).w("slot", root | 3).str("k", "failed").n("got", -1).n("fills", 0).raw("instrs", "[]")),
+                }
+            }
+        }
     }
 }
